@@ -303,10 +303,15 @@ func (c *Ctx) Finish() int {
 		f := c.fams[n]
 		fmt.Printf("  family %-14s patterns=%-8d evaluations=%-11d nontrivial=%-9d complete=%v %s\n", n, f.Patterns, f.Evaluations, f.Nontrivial, f.Complete, f.Note)
 	}
+	os.MkdirAll(filepath.Join(verifDir, "replays"), 0o755)
+	if old, _ := filepath.Glob(filepath.Join(verifDir, "replays", c.ID+"-*.json")); len(old) > 0 {
+		for _, f := range old {
+			os.Remove(f) // artefacts of earlier runs of this check
+		}
+	}
 	if c.violTotal == 0 {
 		return 0
 	}
-	os.MkdirAll(filepath.Join(verifDir, "replays"), 0o755)
 	sort.SliceStable(c.violations, func(i, j int) bool {
 		a, b := c.violations[i], c.violations[j]
 		if len(a.Pattern)+len(a.Input) != len(b.Pattern)+len(b.Input) {
